@@ -3,6 +3,7 @@ package main
 import (
 	"fmt"
 	"math"
+	"os"
 	"sort"
 	"strings"
 	"time"
@@ -414,8 +415,16 @@ func checkQueueRun(ctx *Ctx, qr *qRun, linearize bool) {
 		o.v("C04", "race", r.Sig, fmt.Sprintf("%s race on %s: %s (task %d) vs %s (task %d)", r.Kind, r.Var, r.SiteA, r.TaskA, r.SiteB, r.TaskB))
 	}
 	if res.End == "stepcap" {
-		o.v("C05", "no-quiescence", "stepcap", "the run did not quiesce within the step cap; "+res.String())
-		return
+		// The run was cut off.  For a program that must terminate (pipeline) that
+		// is a violation.  For the others it is what a queue that waits by
+		// polling looks like (a spinning wait never parks): the calls still in
+		// progress are then judged like parked ones - each must be justified by
+		// the queue's state - and every other oracle applies to the history so far.
+		o.ctx.Probe("run_cut_at_step_cap")
+		if qr.prog.Shape == "pipeline" {
+			o.v("C05", "no-quiescence", "stepcap:pipeline", "a well-formed pipeline did not terminate within the step cap; "+res.String()+"; history: "+hist)
+			return
+		}
 	}
 
 	// index the history
@@ -440,7 +449,8 @@ func checkQueueRun(ctx *Ctx, qr *qRun, linearize bool) {
 		}
 	}
 	_ = closeRet
-	for v, d := range o.dels {
+	for _, v := range sortedValueKeys(o.dels) {
+		d := o.dels[v]
 		a := o.adds[v]
 		if a == nil {
 			o.v("C04", "invented-value", "invented", fmt.Sprintf("value %d delivered but never added; history: %s", v, hist))
@@ -537,8 +547,10 @@ func checkQueueRun(ctx *Ctx, qr *qRun, linearize bool) {
 
 	// -- order of one producer's values (C04): if AddValue(a) returned before
 	// AddValue(b) was invoked, b must not be delivered strictly before a.
-	for va, a := range o.adds {
-		for vb, b := range o.adds {
+	for _, va := range sortedValueKeys(o.adds) {
+		a := o.adds[va]
+		for _, vb := range sortedValueKeys(o.adds) {
+			b := o.adds[vb]
 			if va == vb || !a.Returned || !(a.Ret < b.Inv) {
 				continue
 			}
@@ -637,7 +649,8 @@ func (o *qOracle) checkObserver(e *qEvent, hist string) {
 			}
 		}
 		// values that must be present
-		for v, a := range o.adds {
+		for _, v := range sortedValueKeys(o.adds) {
+			a := o.adds[v]
 			if !(a.Returned && a.Ret < e.Inv) || seen[v] {
 				continue
 			}
@@ -677,6 +690,15 @@ func (o *qOracle) checkObserver(e *qEvent, hist string) {
 	}
 }
 
+func sortedValueKeys(m map[int]*qEvent) []int {
+	ks := make([]int, 0, len(m))
+	for k := range m {
+		ks = append(ks, k)
+	}
+	sort.Ints(ks)
+	return ks
+}
+
 // ---- linearizability against a nondeterministic FIFO model ---------------------------
 
 type linIn struct {
@@ -685,63 +707,65 @@ type linIn struct {
 	pending bool
 }
 
-func fifoModel() porcupine.Model {
-	// state: "v1,v2,...|c" as a string
-	type st = string
-	parse := func(s st) ([]string, bool) {
-		i := strings.IndexByte(s, '|')
-		closed := s[i+1:] == "c"
-		if i == 0 {
-			return nil, closed
-		}
-		return strings.Split(s[:i], ","), closed
+// fifoNondetStep: the nondeterministic FIFO model.  State "v1,v2,...|c" (c = o
+// open / c closed); returns every possible next state, none if the operation
+// cannot happen in this state.
+func fifoNondetStep(s string, in linIn) []string {
+	i := strings.IndexByte(s, '|')
+	closed := s[i+1:] == "c"
+	var vals []string
+	if i > 0 {
+		vals = strings.Split(s[:i], ",")
 	}
-	mk := func(vals []string, closed bool) st {
+	mk := func(vals []string, closed bool) string {
 		c := "o"
 		if closed {
 			c = "c"
 		}
 		return strings.Join(vals, ",") + "|" + c
 	}
+	switch in.kind {
+	case "add":
+		return []string{mk(append(append([]string{}, vals...), fmt.Sprint(in.val)), closed)}
+	case "addMaybe":
+		return []string{s, mk(append(append([]string{}, vals...), fmt.Sprint(in.val)), closed)}
+	case "remove":
+		if len(vals) > 0 && vals[0] == fmt.Sprint(in.val) {
+			return []string{mk(vals[1:], closed)}
+		}
+		return nil
+	case "removeFalse":
+		if closed && len(vals) == 0 {
+			return []string{s}
+		}
+		return nil
+	case "close":
+		return []string{mk(vals, true)}
+	case "mustDiscard":
+		if len(vals) > 0 {
+			return []string{mk(vals[1:], closed)}
+		}
+		return nil
+	case "maybeDiscard":
+		if len(vals) > 0 {
+			return []string{s, mk(vals[1:], closed)}
+		}
+		return []string{s}
+	}
+	return nil
+}
+
+func fifoModel() porcupine.Model {
 	nm := porcupine.NondeterministicModel{
 		Init: func() []interface{} { return []interface{}{"|o"} },
 		Step: func(state, input, output interface{}) []interface{} {
-			s := state.(st)
-			in := input.(linIn)
-			vals, closed := parse(s)
-			switch in.kind {
-			case "add":
-				nv := append(append([]string{}, vals...), fmt.Sprint(in.val))
-				return []interface{}{mk(nv, closed)}
-			case "addMaybe":
-				nv := append(append([]string{}, vals...), fmt.Sprint(in.val))
-				return []interface{}{s, mk(nv, closed)}
-			case "remove":
-				if len(vals) > 0 && vals[0] == fmt.Sprint(in.val) {
-					return []interface{}{mk(vals[1:], closed)}
-				}
-				return nil
-			case "removeFalse":
-				if closed && len(vals) == 0 {
-					return []interface{}{s}
-				}
-				return nil
-			case "close":
-				return []interface{}{mk(vals, true)}
-			case "mustDiscard":
-				if len(vals) > 0 {
-					return []interface{}{mk(vals[1:], closed)}
-				}
-				return nil
-			case "maybeDiscard":
-				if len(vals) > 0 {
-					return []interface{}{s, mk(vals[1:], closed)}
-				}
-				return []interface{}{s}
+			var out []interface{}
+			for _, s := range fifoNondetStep(state.(string), input.(linIn)) {
+				out = append(out, s)
 			}
-			return nil
+			return out
 		},
-		Equal: func(a, b interface{}) bool { return a.(st) == b.(st) },
+		Equal: func(a, b interface{}) bool { return a.(string) == b.(string) },
 	}
 	return nm.ToModel()
 }
@@ -821,15 +845,101 @@ func (o *qOracle) checkLinearizable(hist string) {
 		o.ctx.Probe("linearizability_skipped_history_too_long")
 		return
 	}
-	r := porcupine.CheckOperationsTimeout(theFifoModel, ops, 3*time.Second)
+	r := porcupine.Unknown
+	if os.Getenv("VERIF_FORCE_BOUNDED_SEARCH") == "" { // set only to test the fallback itself
+		r = porcupine.CheckOperationsTimeout(theFifoModel, ops, 3*time.Second)
+	}
 	switch r {
 	case porcupine.Illegal:
 		o.v("C04", "nonlinearizable", "fifo", "no FIFO order consistent with real time explains the history: "+hist)
 	case porcupine.Unknown:
-		o.ctx.Probe("linearizability_inconclusive_timeout")
+		// porcupine's bound is wall-clock time; so that the verdict does not
+		// depend on how loaded the machine is, the history is decided again by a
+		// search bounded by a number of visited nodes
+		switch boundedLinearizable(ops, 400000) {
+		case linYes:
+			o.ctx.Probe("linearizability_checked_by_bounded_search")
+		case linNo:
+			o.v("C04", "nonlinearizable", "fifo", "no FIFO order consistent with real time explains the history: "+hist)
+		default:
+			o.ctx.Probe("linearizability_inconclusive_node_budget")
+		}
 	default:
 		o.ctx.Probe("linearizability_checked")
 	}
+}
+
+const (
+	linYes = iota
+	linNo
+	linBudget
+)
+
+// boundedLinearizable is a plain Wing-Gong search over the same
+// nondeterministic FIFO model (sets of model states), memoised on (operations
+// linearized so far, state set), and bounded by a node budget instead of time.
+func boundedLinearizable(ops []porcupine.Operation, budget int) int {
+	n := len(ops)
+	if n > 62 {
+		return linBudget
+	}
+	step := fifoNondetStep
+	type key struct {
+		done   uint64
+		states string
+	}
+	seen := map[key]bool{}
+	nodes := 0
+	full := uint64(1)<<uint(n) - 1
+	var search func(done uint64, states []string) int
+	search = func(done uint64, states []string) int {
+		if done == full {
+			return linYes
+		}
+		nodes++
+		if nodes > budget {
+			return linBudget
+		}
+		k := key{done, strings.Join(states, ";")}
+		if seen[k] {
+			return linNo
+		}
+		seen[k] = true
+		minRet := int64(math.MaxInt64)
+		for i := 0; i < n; i++ {
+			if done&(1<<uint(i)) == 0 && ops[i].Return < minRet {
+				minRet = ops[i].Return
+			}
+		}
+		result := linNo
+		for i := 0; i < n; i++ {
+			if done&(1<<uint(i)) != 0 || ops[i].Call > minRet {
+				continue
+			}
+			set := map[string]bool{}
+			for _, s := range states {
+				for _, ns := range step(s, ops[i].Input.(linIn)) {
+					set[ns] = true
+				}
+			}
+			if len(set) == 0 {
+				continue
+			}
+			next := make([]string, 0, len(set))
+			for s := range set {
+				next = append(next, s)
+			}
+			sort.Strings(next)
+			switch search(done|1<<uint(i), next) {
+			case linYes:
+				return linYes
+			case linBudget:
+				result = linBudget
+			}
+		}
+		return result
+	}
+	return search(0, []string{"|o"})
 }
 
 // ---- progress (C05) ---------------------------------------------------------------------
@@ -886,7 +996,8 @@ func (o *qOracle) checkProgress(hist string) {
 			return
 		}
 		// every value consumed (or discardable by a RemoveAll)
-		for v, a := range o.adds {
+		for _, v := range sortedValueKeys(o.adds) {
+			a := o.adds[v]
 			if o.dels[v] != nil {
 				continue
 			}
